@@ -88,8 +88,10 @@ _AX_NONE = re.compile(r"^'([^']+)' does not depend on any axioms", re.M)
 def audit(prop_id, timeout=600):
     """Run Audit/<id>.lean; return {theorem: [axioms]} for every `#print axioms` in it."""
     path = os.path.join(LEAN_DIR, 'Audit', prop_id + '.lean')
-    with open(path, encoding='utf-8') as f:
-        wanted = re.findall(r'^#print axioms\s+(\S+)', f.read(), re.M)
+    # the audit file is regenerated from Props/<id>.lean: every `theorem` there is audited
+    wanted = theorem_sources(prop_id)
+    write_if_changed(path, 'import PyIpmi.Props.%s\n' % prop_id
+                     + ''.join('#print axioms %s\n' % w for w in wanted))
     with _Lock():
         rc, out = _run(['lake', 'env', 'lean', os.path.join('Audit', prop_id + '.lean')], timeout)
     if rc != 0:
